@@ -668,7 +668,8 @@ Notation tar_serial := (tar2sqfs_serial o dflt no_tail_pack hash dcompress HT ht
                           splice xa xsec opts mcompress limit wc).
 
 (* gensquashfs_image_deterministic.  Two runs of gensquashfs on the LTS of threadpool.c — each with its own number of
-   workers, callback table, schedule prefix, schedule and requested backlog — and the serial reference: the same
+   workers, callback table (both constrained by [nofail] to never report a failure: the callbacks are then the constant 0 -
+   independent audit 3, C3), schedule prefix, schedule and requested backlog — and the serial reference: the same
    outcome (r1 = r2 = ref, as values of [pres_img]: image with all its parts, or the same failure), hence the same bytes
    of the image file; the reference IS the in-order specification's image [gens_outcome]; the data path did not fail. *)
 Theorem gensquashfs_image_deterministic :
@@ -995,3 +996,22 @@ Example ex_det_env :
   PackModel.image_file (de_gens (Some (removelast de_1600000000 ++ [49])) None) <> PackModel.image_file (de_gens (Some de_1600000000) None) /\
   de_mtimes (de_gens None (Some 7)) = Some (7, repeat 7 12) /\ opt_ok (Some 7).
 Proof. exact ex_env. Qed.
+
+(* ---- non-vacuity (independent audit 3, G4): ALL hypotheses of gensquashfs_image_deterministic_readdir on one instance ---- *)
+From Coq Require Import List NArith ZArith Bool.
+From SqfsV Require Import C11.ScanModel C11.ScanProofs C11.CanonProofs.
+From SqfsV Require Image.FinishModel C02.BpProofs.
+From SqfsV Require Import ImgScan.PackProofs ImgScan.Example ImgDet.GenDet ImgDet.Example BpPool.TpExec.
+Local Open Scope N_scope.
+(* G4: ALL hypotheses of gensquashfs_image_deterministic_readdir on the instance of ex_det_gens_image
+   (sorted = true, cfg = x_cfg, trees x_tree / x_tree', 2 and 3 workers) *)
+Example ex_det_readdir_hyps :
+  nofail d_nofail /\ (2 >= 1)%nat /\ admissible 2 d_sched2 /\ (3 >= 1)%nat /\ admissible 3 d_sched3 /\
+  0 < FinishModel.c_block_size x_wc /\ (forall nm, BpProofs.file_ok (x_host_file nm)) /\
+  hwf x_tree /\ hperm x_tree x_tree' /\ x_tree <> x_tree' /\ order_free_case true x_cfg x_tree.
+Proof.
+  destruct ex_schedules_admissible as (A2 & A3 & _ & NF). destruct ex_gens_hyps as (B & F).
+  destruct ex_scan_tables as (W & P & D & O & _).
+  split; [exact NF|]. split; [apply le_S, le_n|]. split; [exact A2|]. split; [apply le_S, le_S, le_n|].
+  split; [exact A3|]. split; [exact B|]. split; [exact F|]. split; [exact W|]. split; [exact P|]. split; [exact D|exact O].
+Qed.
